@@ -270,8 +270,20 @@ func (l *LC) absEntry(kb []byte, valhex string, c *Chain) M {
 }
 
 // abstract chain names of the specifications are short; real ones must have 3..64 characters
-func RealName(n string) string { return "cli-" + n }
-func AbsName(n string) string  { return strings.TrimPrefix(n, "cli-") }
+// RealName: the real chain name of an abstract one.  "na" is a valid name equal to a constant element of the client store
+// paths (clients/<name>/consensusStates/<height>), so that every key parser meets it.
+func RealName(n string) string {
+	if n == "na" {
+		return host.KeyConsensusStatePrefix
+	}
+	return "cli-" + n
+}
+func AbsName(n string) string {
+	if n == host.KeyConsensusStatePrefix {
+		return "na"
+	}
+	return strings.TrimPrefix(n, "cli-")
+}
 
 func shortType(t string) string {
 	switch t {
